@@ -1,5 +1,5 @@
 (* Corr.v — executable helpers of the correspondence check (model side): object-graph dump and case evaluation. *)
-From LSP Require Import Base MM Sem.
+From LSP Require Import Base MM Sem SemThy Denote.
 
 Fixpoint dump (v : pv) : json :=
   match v with
@@ -27,7 +27,9 @@ Inductive expect := XRaise | XOk (dumped : json) (unstructured : option json).
 Record case := { c_ty : pty; c_in : json; c_exp : expect; c_mm : option ty (* certify validity first *) }.
 
 Definition FUEL := 60.
-(* 0 = agreement; 1 = ok/raise differs; 2 = object graph differs; 3 = unstructured JSON differs; 4 = input claimed valid is not; 5 = model ran out of fuel *)
+(* 0 = agreement; 1 = ok/raise differs; 2 = object graph differs; 3 = unstructured JSON differs; 4 = input claimed valid is not;
+   5 = model ran out of fuel; 6 = (valid input) the model's result is not well-typed at the requested type (Denote.typed_b);
+   7 = (valid input) the model's unstructured JSON is not the denotation of its result *)
 Definition judge (mm : MM) (Sg : sigma) (pystr : json -> string) (c : case) : nat :=
   if match c_mm c with Some t => negb (valid_b mm FUEL t (c_in c)) | None => false end then 4 else
   match structure Sg pystr FUEL (c_ty c) (c_in c), c_exp c with
@@ -37,10 +39,13 @@ Definition judge (mm : MM) (Sg : sigma) (pystr : json -> string) (c : case) : na
   | Ok _, XRaise => 1
   | Ok o, XOk d u =>
       if negb (jeqb (canon (dump o)) d) then 2 else
+      if match c_mm c with Some _ => negb (typed_b Sg FUEL (c_ty c) o) | None => false end then 6 else
       match unstr Sg FUEL (Some (c_ty c)) o, u with
       | Fuel, _ => 5
       | Err _, None => 0
-      | Ok j, Some j' => if jeqb (canon j) j' then 0 else 3
+      | Ok j, Some j' => if jeqb (canon j) j' then
+                           (if match c_mm c with Some _ => negb (jeqb (canon j) (canon (den Sg o))) | None => false end then 7 else 0)
+                         else 3
       | _, _ => 3 end end.
 Definition bad_cases (mm : MM) (Sg : sigma) (pystr : json -> string) (start : nat) (cs : list case) : list (nat * nat) :=
   filter (fun p => negb (Nat.eqb (snd p) 0)) (combine (seq start (length cs)) (map (judge mm Sg pystr) cs)).
